@@ -21,7 +21,7 @@ RULE = "instances = clock writes, scan loops, date-field writes, waiting-state e
 SCAN_TABLE = {
     # Class.method: (collection text, required-true filter atoms on both arms (with VAR = loop variable), consumer check name)
     "Simulation.find_next_active_node": ("self.active_nodes", [], None),
-    "ArrivalNode.find_next_event_date": ("self.event_dates_dict[nd]", [], None),
+    "ArrivalNode.find_next_event_date": ("self.event_dates_dict[OUTER]", [], None),
     "Node.update_next_end_service_without_server": ("self.all_individuals", [("not", ("truth", "VAR.is_blocked"))], None),
     "Node.update_next_end_service_with_server": ("self.servers", [], None),
     "Node.update_next_renege_time": ("self.all_individuals", [("not", ("truth", "VAR.server"))], None),
@@ -117,6 +117,14 @@ def scan_rules(ctx, P):
             if spec is None:
                 continue
             coll, filt, _ = spec
+            if coll is not None and "OUTER" in coll:
+                outer = sc.loop._parent
+                while outer is not None and not isinstance(outer, ast.For):
+                    outer = getattr(outer, "_parent", None)
+                if outer is None or unparse(outer.iter) != coll.split("[OUTER]")[0]:
+                    ctx.violation(ob, "R6.argmin", q, "outer loop", "scan-collection", "the scan must run over every (node, class) entry of %s" % coll.split("[OUTER]")[0], loc(sc.loop))
+                    continue
+                coll = coll.replace("OUTER", unparse(outer.target))
             if coll is not None and unparse(sc.loop.iter) != coll:
                 ctx.violation(ob, "R6.argmin", q, "for ... in %s" % unparse(sc.loop.iter)[:60], "scan-collection", "the scan must run over the whole of %s" % coll, loc(sc.loop))
             var = unparse(sc.loop.target)
@@ -134,50 +142,89 @@ def scan_rules(ctx, P):
     ctx.floor("arg-min scans", sum(len(v) for v in found.values()), 9)
 
 
+def _arm_assigned(sc):
+    return {unparse(t): unparse(x.value) for x in sc.arm.body if isinstance(x, ast.Assign) for t in x.targets}
+
+
 def consumer_checks(ctx, ob, P):
+    """the selection made by each scan is what is returned / stored (data-flow on the scan's own variables, names are free)"""
     def ret_texts(fn):
         return [unparse(x.value) for x in ast.walk(fn) if isinstance(x, ast.Return) and x.value is not None]
 
     sim = P.view("Simulation")
     cls, fn = sim.method("find_next_active_node")
-    rts = sorted(ret_texts(fn))
-    ob.ok("consumer:find_next_active_node", "; ".join(rts))
-    if rts != ["next_active_nodes[0]", "random_choice(next_active_nodes)"]:
-        ctx.violation(ob, "R6.argmin", "Simulation.find_next_active_node", "; ".join(rts), "scan-result-not-returned", "the node returned must be one of the minimisers collected by the scan", loc(fn))
+    for sc in scans.find_scans(fn):
+        var = unparse(sc.loop.target)
+        lists = [k for k, v in _arm_assigned(sc).items() if v == "[%s]" % var]
+        rts = sorted(ret_texts(fn))
+        ob.ok("consumer:find_next_active_node", "; ".join(rts))
+        if len(lists) != 1 or rts != sorted(["%s[0]" % lists[0], "random_choice(%s)" % lists[0]]):
+            ctx.violation(ob, "R6.argmin", "Simulation.find_next_active_node", "; ".join(rts), "scan-result-not-returned", "the node returned must be one of the minimisers collected by the scan", loc(fn))
+        for t in sc.ties:
+            app = [x for x in ast.walk(t) if isinstance(x, ast.Call) and call_name(x) == "append"]
+            if len(app) != 1 or not lists or unparse(app[0].func.value) != lists[0] or unparse(app[0].args[0]) != var:
+                ctx.violation(ob, "R6.argmin", "Simulation.find_next_active_node", "tie arm", "selection-not-from-iteration", "a tied node must be appended to the candidates", loc(t))
     for c in P.subclasses("ArrivalNode"):
         v = P.view(c)
         cls, fn = v.method("find_next_event_date")
-        asg = {unparse(x.targets[0]): unparse(x.value) for x in fn.body if isinstance(x, ast.Assign)}
-        ob.ok("consumer:%s.find_next_event_date" % c)
-        if asg.get("self.next_event_date") != "mindate" or asg.get("self.next_node") != "minnd" or asg.get("self.next_class") != "minclss":
-            ctx.violation(ob, "R6.argmin", "%s.find_next_event_date" % cls.name, str(asg), "scan-result-not-stored", "next_event_date / next_node / next_class must be the minimum date and its (node, class)", loc(fn))
-        # the (node, class) remembered belong to the minimum: assigned in the same arm
         for sc in scans.find_scans(fn):
-            arm_assigned = {unparse(t): unparse(s.value) for s in sc.arm.body if isinstance(s, ast.Assign) for t in s.targets}
-            if arm_assigned.get("minnd") != "nd" or arm_assigned.get("minclss") != "clss":
-                ctx.violation(ob, "R6.argmin", "%s.find_next_event_date" % cls.name, str(arm_assigned), "selection-not-from-iteration", "the remembered node/class must be those of the iteration that set the minimum", loc(sc.arm))
+            inner = unparse(sc.loop.target)
+            outer = sc.loop._parent
+            while outer is not None and not isinstance(outer, ast.For):
+                outer = getattr(outer, "_parent", None)
+            outer_v = unparse(outer.target) if outer is not None else "?"
+            arm = _arm_assigned(sc)
+            from_outer = [k for k, val in arm.items() if val == outer_v]
+            from_inner = [k for k, val in arm.items() if val == inner]
+            after = {unparse(x.targets[0]): unparse(x.value) for x in fn.body if isinstance(x, ast.Assign)}
+            ob.ok("consumer:%s.find_next_event_date" % c)
+            if len(from_outer) != 1 or len(from_inner) != 1:
+                ctx.violation(ob, "R6.argmin", "%s.find_next_event_date" % cls.name, str(arm), "selection-not-from-iteration", "the remembered node/class must be those of the iteration that set the minimum", loc(sc.arm))
+            elif after.get("self.next_event_date") != sc.best or after.get("self.next_node") != from_outer[0] or after.get("self.next_class") != from_inner[0]:
+                ctx.violation(ob, "R6.argmin", "%s.find_next_event_date" % cls.name, str(after), "scan-result-not-stored", "next_event_date / next_node / next_class must be the minimum date and its (node, class)", loc(fn))
     for c in P.subclasses("Node"):
         v = P.view(c)
         cls, fn = v.method("update_next_event_date")
-        txt = unparse(fn).replace(" ", "")
         ob.ok("consumer:%s.update_next_event_date" % c)
-        for need in ("next_event,self.next_event_type=self.decide_next_event()", "self.next_event_date=next_event[1]", "self.next_individual=next_event[0]",
-                     "self.next_event_date=next_end_service[1]", "self.next_individual=next_end_service[0]"):
-            if need not in txt:
-                ctx.violation(ob, "R6.argmin", "%s.update_next_event_date" % cls.name, need, "scan-result-not-stored", "the node's next event must be the (individual, date) pair selected by the scans", loc(fn))
-        # every possible_next_events entry is (selection, date) with the date being the scanned key
+        okk = False
+        pair = None
+        for x in ast.walk(fn):
+            if isinstance(x, ast.Assign) and isinstance(x.targets[0], ast.Tuple) and len(x.targets[0].elts) == 2 and unparse(x.value) == "self.decide_next_event()" \
+                    and isinstance(x.targets[0].elts[0], ast.Name) and unparse(x.targets[0].elts[1]) == "self.next_event_type":
+                pair = x.targets[0].elts[0].id
+        fallback = None
+        for x in ast.walk(fn):
+            if isinstance(x, ast.Assign) and isinstance(x.targets[0], ast.Name) and isinstance(x.value, ast.Call) and unparse(x.value.func) == "self.possible_next_events.get" \
+                    and x.value.args and unparse(x.value.args[0]) == "'end_service'":
+                fallback = x.targets[0].id
+        asg = [(unparse(x.targets[0]), unparse(x.value)) for x in ast.walk(fn) if isinstance(x, ast.Assign)]
+        need = []
+        if pair:
+            need += [("self.next_event_date", pair + "[1]"), ("self.next_individual", pair + "[0]")]
+        if fallback:
+            need += [("self.next_event_date", fallback + "[1]"), ("self.next_individual", fallback + "[0]"), ("self.next_event_type", "'end_service'")]
+        if not pair or not fallback or any(n not in asg for n in need):
+            ctx.violation(ob, "R6.argmin", "%s.update_next_event_date" % cls.name, "next_event_date / next_individual / next_event_type", "scan-result-not-stored",
+                          "the node's next event must be the (individual, date) pair and type selected by the scans", loc(fn))
         cls, fn = v.method("decide_next_event")
-        rts = ret_texts(fn)
-        if rts != ["(next_event, next_event_type)"]:
-            ctx.violation(ob, "R6.argmin", "%s.decide_next_event" % cls.name, str(rts), "scan-result-not-returned", "decide_next_event must return the selected (event, type)", loc(fn))
         for sc in scans.find_scans(fn):
-            arm_assigned = {unparse(t): unparse(s.value) for s in sc.arm.body if isinstance(s, ast.Assign) for t in s.targets}
-            if arm_assigned.get("next_event") != "possible_next_event" or arm_assigned.get("next_event_type") != unparse(sc.loop.target):
-                ctx.violation(ob, "R6.argmin", "%s.decide_next_event" % cls.name, str(arm_assigned), "selection-not-from-iteration", "event and type must be those of the iteration that set the minimum", loc(sc.arm))
+            var = unparse(sc.loop.target)
+            arm = _arm_assigned(sc)
+            cand = [unparse(x.targets[0]) for x in ast.walk(sc.loop) if isinstance(x, ast.Assign) and isinstance(x.value, ast.Call) and unparse(x.value.func) == "self.possible_next_events.get"
+                    and x.value.args and unparse(x.value.args[0]) == var]
+            ev_var = [k for k, val in arm.items() if cand and val == cand[0]]
+            ty_var = [k for k, val in arm.items() if val == var]
+            rts = ret_texts(fn)
+            if len(ev_var) != 1 or len(ty_var) != 1:
+                ctx.violation(ob, "R6.argmin", "%s.decide_next_event" % cls.name, str(arm), "selection-not-from-iteration", "event and type must be those of the iteration that set the minimum", loc(sc.arm))
+            elif rts != ["(%s, %s)" % (ev_var[0], ty_var[0])]:
+                ctx.violation(ob, "R6.argmin", "%s.decide_next_event" % cls.name, str(rts), "scan-result-not-returned", "decide_next_event must return the selected (event, type)", loc(fn))
+            elif cand and scans._subst(sc.key, {ev_var[0]: cand[0]}) not in (cand[0] + "[1]",) and sc.key != cand[0] + "[1]":
+                ctx.violation(ob, "R6.argmin", "%s.decide_next_event" % cls.name, sc.key, "scan-key", "candidates must be compared by their date", loc(sc.arm))
         for m in ("update_next_end_service_without_server", "update_next_end_service_with_server", "update_next_renege_time"):
             cls, fn = v.method(m)
             for sc in scans.find_scans(fn):
-                st = [s for s in sc.arm.body if isinstance(s, ast.Assign) and "possible_next_events" in unparse(s.targets[0])]
+                st = [x for x in sc.arm.body if isinstance(x, ast.Assign) and "possible_next_events" in unparse(x.targets[0])]
                 if len(st) != 1 or not isinstance(st[0].value, ast.Tuple) or unparse(st[0].value.elts[1]) != sc.key:
                     ctx.violation(ob, "R6.argmin", "%s.%s" % (cls.name, m), unparse(sc.arm)[:80], "scan-result-not-stored", "the candidate event must carry the scanned minimum date", loc(sc.arm))
 
